@@ -17,6 +17,8 @@ import (
 
 var advNames = []string{
 	"type", "func", "range", "select", "default", "interface", "map", "chan", "go", "package",
+	// names that are no keywords as spelled but whose derived Go variable name is one (Type -> type, RANGE -> range, default_ -> default)
+	"Type", "Map", "RANGE", "default_", "Func", "Go", "_select", "Chan-",
 	"string", "error", "nil", "len", "int", "bool", "true", "iota", "any", "new",
 	"1st", "2fast", "200", "3D-model", "foo-bar", "foo.bar", "foo bar", "foo_bar", "a+b", "$dollar", "$ref-like",
 	"café", "naïve", "Ünïcode", "straße", "παράδειγμα", "пример", "x-y-z", "UPPER", "lower", "camelCase",
